@@ -10,6 +10,7 @@ pub struct Api {
     pub twrite: fn(usize, &Value, &mut crate::uptrace::Tw) -> Option<Result<(), asn1rs::protocol::per::Error>>,
     pub pwrite: fn(usize, &Value, &mut ProtobufWriter<'_>) -> Option<Result<(), asn1rs::protocol::protobuf::Error>>,
     pub pread: fn(usize, &mut ProtobufReader<'_>) -> Result<Value, asn1rs::protocol::protobuf::Error>,
+    pub pcheck: fn(usize, &mut ProtobufReader<'_>) -> Result<(), asn1rs::protocol::protobuf::Error>,
     pub types: &'static [usize],
 }
 
@@ -31,6 +32,7 @@ pub fn main(api: Api) {
         "versions" => versions(&api, &args[2], &mut out),
         "decode" => decode(&api, &args[2], &mut out, &kv),
         "proto" => proto(&api, &args[2], &mut out, &kv),
+        "pdecode" => pdecode(&api, &args[2], &mut out, &kv),
         other => {
             eprintln!("unknown domain {}", other);
             std::process::exit(2);
@@ -577,4 +579,118 @@ fn uptrace(api: &Api, input: &str, out: &mut Out, kv: &Kv) {
         }
     }
     out.line(&json!({"ev": "summary", "ph": "call", "cases": n, "traced": traced, "events": events}));
+}
+
+/// C04 for the protobuf reader: every fault descriptor of MC_ByteFaults applied to every valid encoding the real writer
+/// produces for the protobuf zoo (seeds=<vectors>), decoded as the seed's own type and as the next type of the zoo;
+/// raw descriptors are decoded as every type.  Case index = descriptor index * SEEDCAP + seed index (restartable).
+fn pdecode(api: &Api, input: &str, out: &mut Out, kv: &Kv) {
+    const SEEDCAP: usize = 100_000;
+    let start = kv_u64(kv, "start", 0) as usize;
+    let stride = kv_u64(kv, "seedstride", 1) as usize;
+    let mut progress = crate::sandbox::Progress::new(kv.get("progress").expect("progress=<file>"), std::time::Duration::from_secs(kv_u64(kv, "limit_s", 3)));
+    let (tables, descs) = crate::bytefault::load(input);
+    // seeds: the real writer's bytes for every vector that can be written
+    let mut seeds: Vec<(usize, Vec<u8>)> = Vec::new();
+    // types inside the class of an open protobuf finding (no proto3 mapping exists for them) are not decode targets
+    let mut devtypes: std::collections::BTreeMap<usize, String> = Default::default();
+    for (_i, c) in read_lines(kv.get("seeds").expect("seeds=<vectors>")) {
+        if c["dev"].as_str().unwrap_or("") != "" {
+            devtypes.insert(usize_of(&c["ti"]), c["dev"].as_str().unwrap().to_string());
+            continue;
+        }
+        let ti = usize_of(&c["ti"]);
+        let r = guarded(|| {
+            let mut w = ProtobufWriter::default();
+            match (api.pwrite)(ti, &c["v"], &mut w) {
+                Some(Ok(())) => Some(w.as_bytes().to_vec()),
+                _ => None,
+            }
+        });
+        if let Ok(Some(b)) = r {
+            if !seeds.iter().any(|(t, x)| *t == ti && *x == b) {
+                seeds.push((ti, b));
+            }
+        }
+    }
+    assert!(seeds.len() < SEEDCAP);
+    // only the classes whose finding covers this property are excluded (exclude=<Dev names>)
+    let excluded: Vec<&str> = kv.get("exclude").map(|s| s.split(',').collect()).unwrap_or_default();
+    devtypes.retain(|_, d| excluded.contains(&d.as_str()));
+    let targets: Vec<usize> = api.types.iter().copied().filter(|t| !devtypes.contains_key(t)).collect();
+    let ntypes = targets.len();
+    let show = kv.get("show").map(|s| s.parse::<usize>().unwrap());
+    let mut stats: std::collections::BTreeMap<String, u64> = Default::default();
+    let mut shown: std::collections::BTreeMap<String, u64> = Default::default();
+    let mut n = 0u64;
+    let mut run = |idx: usize, ti: usize, bytes: &[u8], what: &Value, out: &mut Out, progress: &mut crate::sandbox::Progress| {
+        n += 1;
+        if show == Some(idx) {
+            // identify the input of an incident (hang / abort) for the report
+            out.line(&json!({"show": idx, "type": ti, "hex": hex(bytes), "fault": what}));
+            out.flush();
+        }
+        progress.begin(idx);
+        let base = crate::alloc::reset_peak();
+        let r = guarded(|| {
+            let mut r = ProtobufReader::from(bytes);
+            (api.pcheck)(ti, &mut r)
+        });
+        let peak = crate::alloc::peak_since(base);
+        progress.end();
+        let mut problems: Vec<(String, String)> = Vec::new();
+        match &r {
+            Err(p) => {
+                problems.push(("panic".into(), format!("panic: {}", p)));
+                *stats.entry("panic".into()).or_insert(0) += 1;
+            }
+            Ok(Ok(())) => *stats.entry("ok".into()).or_insert(0) += 1,
+            Ok(Err(_)) => *stats.entry("err".into()).or_insert(0) += 1,
+        }
+        if peak > (64usize << 20) + 64 * bytes.len() {
+            problems.push(("alloc".into(), format!("peak allocation {} bytes for an input of {} bytes", peak, bytes.len())));
+        }
+        for (class, why) in problems {
+            *stats.entry(format!("bad:{}", class)).or_insert(0) += 1;
+            let key = format!("{}/{}", class, why.chars().take(70).collect::<String>());
+            let cnt = shown.entry(key).or_insert(0);
+            *cnt += 1;
+            if *cnt <= 2 {
+                out.line(&json!({"index": idx, "class": class, "why": why, "type": ti, "hex": hex(bytes), "fault": what}));
+            }
+        }
+    };
+    for (di, (_line, d)) in descs.iter().enumerate() {
+        if (di + 1) * SEEDCAP <= start {
+            continue;
+        }
+        let what = crate::bytefault::describe(d);
+        match d {
+            crate::bytefault::Desc::Raw(b) => {
+                for k in 0..ntypes {
+                    let idx = di * SEEDCAP + k;
+                    if idx >= start {
+                        run(idx, targets[k], b, &what, out, &mut progress);
+                    }
+                }
+            }
+            crate::bytefault::Desc::Seq(fs) => {
+                for (si, (ti, seed)) in seeds.iter().enumerate() {
+                    let idx = di * SEEDCAP + si;
+                    if idx < start || (si + di) % stride != 0 {
+                        continue;
+                    }
+                    let m = crate::bytefault::apply_all(seed, fs, &tables);
+                    if m == *seed {
+                        continue;
+                    }
+                    run(idx, *ti, &m, &what, out, &mut progress);
+                    // the same bytes under a different schema
+                    let pos = targets.iter().position(|t| t == ti).unwrap();
+                    run(idx, targets[(pos + 1) % ntypes], &m, &what, out, &mut progress);
+                }
+            }
+        }
+    }
+    out.line(&json!({"summary": true, "cases": n, "seeds": seeds.len(), "descriptors": descs.len(), "stats": stats, "devtypes": devtypes}));
 }
